@@ -13,6 +13,7 @@ CONSTANTS
     InfluxStopF = TRUE
     ReaderDone = TRUE
     AlertCloseOnErr = TRUE
+    UdfStopAborts = FALSE
     HookNeedsTmLock = FALSE
 INVARIANTS
     NoAcceptedLoss
